@@ -40,9 +40,7 @@
 unsigned char in[N ? N : 1];
 unsigned int stat_mode;              /* 0: exists; 1: ENOENT; 2: other error */
 unsigned int stat_uid;
-char auto_usera[] = "a";
-char auto_break[] = "-";
-char auto_qmail[] = "/q";
+/* auto_usera = "a", auto_break = "-": pw2u_conf.c */
 
 static unsigned int outlen, out_nul, out_badstart, out_bol = 1, out_lines, out_colons, out_sum, nstat, died;
 static char b_line[N ? N : 1], b_user[CAP], b_uid[CAP], b_gid[CAP], b_home[CAP], b_uugh[CAP], b_all[CAPALL];
@@ -84,7 +82,9 @@ int ideal_putc(substdio *s, unsigned char c)     /* scalar observer: an output a
   out_bol = (c == '\n');
   if (c == '\n') ++out_lines;
   if (c == ':') ++out_colons;
+#ifdef BYTESUM
   out_sum += c;
+#endif
   ++outlen;
   return 0;
 }
@@ -124,7 +124,11 @@ static void split(void)
   }
 }
 static unsigned int explen, expsum;
-static void ex_c(unsigned int c) { ++explen; expsum += c; }
+static void ex_c(unsigned int c) { ++explen;
+#ifdef BYTESUM
+  expsum += c;
+#endif
+}
 static void ex_f(unsigned int k) { unsigned int i; for (i = 0; i < N; ++i) { if (i >= flen_[k]) break; ex_c(in[fstart[k] + i]); } }
 static void ex_tail(void) { ex_c(':'); ex_f(0); ex_c(':'); ex_f(2); ex_c(':'); ex_f(3); ex_c(':'); ex_f(5); ex_c(':'); }
 
@@ -133,6 +137,13 @@ void vmain(void)
   unsigned int i, hasnul = 0, upper = 0, numeric = 1, uidzero = 1, accept;
   sym_inputs();
   ASSUME(stat_mode <= 2);
+  for (i = 0; i + 1 < N; ++i) ASSUME(in[i] != '\n');      /* getln: the separator can only be the last byte of a line */
+#ifdef CM
+  /* template (grid): bit i of CM set <=> byte i is a colon, for every byte up to and including the sixth colon (all bytes if CM
+   * has fewer than six bits); bytes behind the sixth colon - the shell field - are free.  Every line of N bytes matches exactly
+   * one such template; field boundaries are then concrete, field contents symbolic */
+  { unsigned int seen = 0; for (i = 0; i < N; ++i) { if (seen >= 6) break; if ((CM >> i) & 1) { ASSUME(in[i] == ':'); ++seen; } else { ASSUME(in[i] != ':'); } } }
+#endif
   for (i = 0; i < N; ++i) { b_line[i] = (char) in[i]; if (!in[i]) hasnul = 1; }
   for (i = 0; i < CAP; ++i) { b_user[i] = b_uid[i] = b_gid[i] = b_home[i] = b_uugh[i] = '#'; }
   for (i = 0; i < CAPALL; ++i) b_all[i] = '#';
